@@ -43,12 +43,72 @@ def close(a, b, tol=1e-9):
     return abs(a - b) <= tol * max(1.0, abs(a), abs(b))
 
 
+def ref_events(tau, r, v_leak, thr, times, amps, duration, v0=0.0):
+    """Independent event-driven solution of tau*dv/dt = (v_leak - v) + r*I(t), reset by subtraction, for a
+    piecewise-constant I: returns (spike times, v(duration), degenerate?) -- `degenerate` when a crossing
+    falls within 1e-7 of a segment boundary or an asymptote within 1e-9 of the threshold (ordering of
+    simultaneous events is then a matter of rounding, not of the dynamics)."""
+    bounds = [t for t in times if t <= duration]
+    cur, v, a, k = 0.0, v0, 0.0, 0
+    spikes, degenerate = [], False
+    while True:
+        end = bounds[k] if k < len(bounds) else duration
+        A = v_leak + r * a
+        if abs(A - thr) < 1e-9:
+            degenerate = True
+        while A > thr and v < thr:
+            ts = cur + tau * math.log((A - v) / (A - thr))
+            if abs(ts - end) < 1e-7:
+                degenerate = True
+            if ts >= end:
+                break
+            spikes.append(ts)
+            cur, v = ts, 0.0 if True else None      # v(ts) = thr, minus thr
+            if len(spikes) > 200000:
+                return spikes, v, True
+        v = A + (v - A) * math.exp(-(end - cur) / tau)
+        cur = end
+        if k < len(bounds):
+            a = amps[k]; k += 1
+        else:
+            break
+    return spikes, v, degenerate
+
+
 def params(rng, lif):
     tau = 10 ** rng.uniform(-4, 0)
     r = rng.uniform(-2, 2) if rng.random() < 0.8 else rng.choice([1.0, 0.0])
     v_leak = rng.uniform(-2, 2) if rng.random() < 0.85 else 0.0
     thr = v_leak + rng.uniform(0.05, 2.0)
     return lif.LIFParams(tau=tau, r=r, v_leak=v_leak, v_threshold=thr)
+
+
+def _events_agree(ctx, case, p, times, amps, duration, runs, sig):
+    """spike times and recorded voltages of the event loop against the independent solution (initial voltage 0
+    below a positive threshold)"""
+    want, _, degenerate = ref_events(p.tau, p.r, p.v_leak, p.v_threshold, times, amps, duration)
+    if degenerate:
+        ctx.count("event_reference_degenerate_skipped")
+        return True
+    ctx.count("event_reference_compared")
+    ctx.count("event_reference_negative_r" if p.r < 0 else "event_reference_nonnegative_r")
+    got = runs[0].spikes
+    if len(got) != len(want) or any(abs(x - y) > 1e-7 for x, y in zip(got, want)):
+        ctx.violate(case, "spike times of the event loop are not the threshold crossings of the documented dynamics",
+                    {**sig, "law": "event-spikes", "r": "negative" if p.r < 0 else "nonnegative"},
+                    observed={"n": len(got), "first": got[:3], "last": got[-2:]},
+                    required={"n": len(want), "first": want[:3], "last": want[-2:]})
+        return False
+    rec = runs[2]
+    for t, v in list(zip(rec.times, rec.voltages))[:3]:
+        if any(abs(t - s) < 1e-7 for s in want) or any(abs(t - b) < 1e-9 for b in times):
+            continue
+        _, vw, deg = ref_events(p.tau, p.r, p.v_leak, p.v_threshold, times, amps, t)
+        if not deg and not close(v, vw, 1e-6):
+            ctx.violate(case, "recorded voltage of the event loop is not the solution of the documented dynamics",
+                        {**sig, "law": "event-voltage"}, observed={"t": t, "v": v}, required=vw)
+            return False
+    return True
 
 
 def fhex(x):
@@ -145,7 +205,7 @@ def run(ctx):
         times = sorted(rng.uniform(0, 0.08) for _ in range(k))
         if rng.random() < 0.5:
             times[0] = 0.0
-        amps = [rng.uniform(-1, 4) for _ in range(k)]
+        amps = [rng.uniform(-1, 4) for _ in range(k)] if rng.random() < 0.5 else [rng.uniform(-4, 4) for _ in range(k)]
         duration = rng.choice([0.05, 0.1, rng.uniform(0.02, 0.12)])
         dts = [0.001, 0.013, 0.03, 0.2, duration / 7]
         case = {"op": "lif_events", "tau": p.tau, "r": p.r, "v_leak": p.v_leak, "v_threshold": p.v_threshold,
@@ -166,6 +226,8 @@ def run(ctx):
         elif any(len(r.spikes) != len(base) or any(not close(x, y, 1e-9) for x, y in zip(r.spikes, base)) for r in runs):
             ctx.violate(case, "spike times depend on the recording interval", {**sig, "law": "record-dt"},
                         observed=[r.spikes[-4:] for r in runs])
+        elif p.v_threshold > 1e-3 and not _events_agree(ctx, case, p, times, amps, duration, runs, sig):
+            pass
         else:
             # voltages at coinciding record times (all multiples of 0.039 = 3*0.013 = 1.3*0.03 ...)
             ref = {round(t, 9): v for t, v in zip(runs[0].times, runs[0].voltages)}
